@@ -242,6 +242,23 @@ func Corpus(c *Ctx) []*FileSpec {
 		f.MessageType = append(f.MessageType, alpha, beta, inner, holder)
 		add("extmulti", "one-message-extending-two-extendees", true, f)
 	}
+	{ // ... and the same with DISTINCT numbers (every extension must reach the code of its own extendee)
+		f := c.File("extmulti2", "proto2")
+		pkg := c.Pkg("extmulti2")
+		alpha := Msg("Alpha", F("a", 1, Opt, "int32"))
+		ExtRange(alpha, 100, 199)
+		beta := Msg("Beta", F("b", 1, Opt, "string"))
+		ExtRange(beta, 100, 199)
+		inner := Msg("Note", F("text", 1, Opt, "string"), F("n", 2, Opt, "sint32"))
+		holder := Msg("Holder")
+		holder.Extension = append(holder.Extension,
+			Ext("alpha_note", 100, Opt, FullName(pkg, "Note"), FullName(pkg, "Alpha")),
+			Ext("beta_note", 102, Opt, FullName(pkg, "Note"), FullName(pkg, "Beta")),
+			Ext("alpha_more", 101, Opt, FullName(pkg, "Note"), FullName(pkg, "Alpha")),
+			Ext("beta_tag", 103, Opt, FullName(pkg, "Note"), FullName(pkg, "Beta")))
+		f.MessageType = append(f.MessageType, alpha, beta, inner, holder)
+		add("extmulti2", "one-message-extending-two-extendees-distinct-numbers", true, f)
+	}
 	{ // extensions declared with explicit defaults (GetExtension on an unset one returns the default on the V1 runtimes)
 		f := c.File("extdefault", "proto2")
 		pkg := c.Pkg("extdefault")
